@@ -21,6 +21,40 @@ class InfraError(Exception):
     pass
 
 
+# The second build configuration of the drivers and of the library sources they compile: what an embedded target of this library
+# typically uses and what the default x86 build never shows - plain char unsigned (ARM, PowerPC, RISC-V ABIs) and optimisation
+# for size (__OPTIMIZE_SIZE__ defined).  The specifications do not depend on the configuration; the same traces must be accepted.
+ALT_FLAGS = ["-Os", "-funsigned-char"]
+
+
+def subset_executions(script, seed, frac, reset_prefix="R", always=()):
+    """whole executions of a script (an execution starts with a reset line), about `frac` of them, chosen by a private generator;
+    executions containing one of the words in `always` are kept in any case"""
+    rng = random.Random(seed * 7919 + 13)
+    out, cur = [], []
+    def close():
+        if cur and (rng.random() < frac or any(w in l for l in cur for w in always)):
+            out.extend(cur)
+    for l in script:
+        if l.split(" ", 1)[0] == reset_prefix:
+            close(); cur = [l]
+        else:
+            cur.append(l)
+    close()
+    if not out:
+        out = list(script)
+    return out
+
+
+def is_alt(d):
+    """replay records of the second build configuration carry driver names ending in @alt"""
+    return str(d.get("driver", "")).endswith("@alt")
+
+
+def opt_flags(alt=False):
+    return list(ALT_FLAGS) if alt else ["-O1"]
+
+
 _T0 = time.time()
 
 
@@ -354,14 +388,15 @@ class Ctx:
         return p.returncode, out, err
 
     # ---- build ----
-    def cxx(self, out, srcs, flags=(), san="asan", std="-std=gnu++20", cc=None, libs=(), objs=()):
-        """Compile a driver from harness sources + /repo sources (current working tree)."""
+    def cxx(self, out, srcs, flags=(), san="asan", std="-std=gnu++20", cc=None, libs=(), objs=(), alt=False):
+        """Compile a driver from harness sources + /repo sources (current working tree).
+        alt: the second build configuration (ALT_FLAGS: optimised for size, plain char unsigned as on ARM / PowerPC / RISC-V)."""
         sanflags = {"asan": ["-fsanitize=address", "-fno-omit-frame-pointer"],
                     "asan+ubsan": ["-fsanitize=address,undefined", "-fno-sanitize-recover=undefined", "-fno-omit-frame-pointer"],
                     "tsan": ["-fsanitize=thread"],
                     None: []}[san]
         outp = os.path.join(self.work, out)
-        base = ["-g", "-O1", "-DIGRIS_VERIF=1", "-I" + REPO, "-I" + HARNESS, "-w"] + sanflags + list(flags)
+        base = ["-g"] + opt_flags(alt) + ["-DIGRIS_VERIF=1", "-I" + REPO, "-I" + HARNESS, "-w"] + sanflags + list(flags)
         cov = bool(os.environ.get("VERIF_COV")) and (cc or "g++") in ("g++", "gcc")     # bin/covaudit only: line coverage of the drivers
         if cov:
             base += ["--coverage", "-fprofile-update=atomic"]
